@@ -33,8 +33,11 @@ var c15Uniq int64
 
 // genLazySpec generates an expression that contains at least one lazily initialised node.
 func genLazySpec(dt *drv.T, c *Ctx) *GenSpec {
-	inner := GenGenSpec(dt, GenCfg{Depth: c.Pick(1, 2), SmallInts: true, Custom: true, BigRegexp: false})
-	switch pick(dt, "lazy", "deferred", "deferred", "regexp", "runetable", "string", "custom", "oneof-mix") {
+	inner := GenGenSpec(dt, GenCfg{Depth: c.Pick(1, 2), SmallInts: true, Custom: true, Make: true, BigRegexp: false})
+	switch pick(dt, "lazy", "deferred", "deferred", "regexp", "runetable", "string", "custom", "oneof-mix", "make", "make") {
+	case "make":
+		// reflection-built generators (structs, arrays, pointers are built lazily through Deferred)
+		return &GenSpec{K: "make", Type: pick(dt, "mktype", "struct", "nested", "array", "rec", "ptr", "ptrptr", "map", "slice", "slicenamed")}
 	case "deferred":
 		return &GenSpec{K: "deferred", Sub: []*GenSpec{inner}}
 	case "regexp":
